@@ -35,9 +35,10 @@ struct TimedTaskImpl {
       auto wrap = [&f, this, me = std::move(me)]() mutable {
         if (!(flags.load(std::memory_order_acquire) & kFFlagsCancelled)) {
           if (!f()) {
+            // (func is left alone: the scheduler thread may be calling it, and another invocation
+            // may be inside f.  It is destroyed by ~TimedTask or with this object.)
             timesToRun.store(0, std::memory_order_release);
             flags.fetch_or(kFFlagsCancelled, std::memory_order_acq_rel);
-            func = {};
           }
           count.fetch_add(1, std::memory_order_acq_rel);
         }
